@@ -617,6 +617,7 @@ impl Server {
         let mut should_close = false;
         let mut timeout_check = false;
         let mut conn_closed = false;
+        let mut protocol_error: Option<String> = None;
         
         // First phase: read and parse with the lock
         let read_result = self.connections.with_connection(id, |conn| -> Result<()> {
@@ -667,9 +668,11 @@ impl Server {
                                         return Err(e);
                                     },
                                     _ => {
-                                        // Other parsing errors - log but don't immediately close connection
-                                        // This improves tolerance for pipelining edge cases
-                                        eprintln!("Parse warning for connection {}: {}", id, e);
+                                        // A frame that violates the protocol: the commands parsed before it
+                                        // are still executed and answered, then the client gets an error
+                                        // reply and the connection is closed (the stream cannot be resynchronised)
+                                        eprintln!("Protocol error on connection {}: {}", id, e);
+                                        protocol_error = Some(e.to_string());
                                         break;
                                     }
                                 }
@@ -778,6 +781,15 @@ impl Server {
                 }
             };
             responses.push(response);
+        }
+        
+        // A protocol violation is answered with an error instead of silence, after the replies
+        // to the commands that preceded it; the connection is then closed
+        if let Some(msg) = protocol_error {
+            let line: String = msg.chars().map(|c| if c == '\r' || c == '\n' { ' ' } else { c }).collect();
+            responses.push(RespFrame::error(format!("ERR {}", line)));
+            should_close = true;
+            needs_immediate_flush = true;
         }
         
         // Third phase: send responses with special handling for commands needing immediate delivery
